@@ -149,12 +149,12 @@ PROPS = {
     "C11": dict(
         pkg="c11",
         technique="property-based testing (rapid) with a per-sample error-bound oracle computed from the DQT tables parsed from the emitted stream",
-        level_text="Exploration: seeded rapid generators over images (8-bit 1/3 components, 12-bit greyscale; noise, Nyquist checkerboards, black/white extremes) x quality 1..100 x Baseline/Extended; a deterministic sweep over every size 1..33 x 1..33; the bound is the statement's (C(u)C(v)-weighted eighth of the table sum, through |YCbCr->RGB|, plus 2 / 5).",
+        level_text="Exploration: seeded rapid generators over images (8-bit 1/3 components, 12-bit greyscale; noise, Nyquist checkerboards, black/white extremes) x quality 1..100 x Baseline/Extended; a deterministic sweep over every size 1..33 x 1..33; a quota of 384..512-squared noise images (the Huffman length-limiting regime); the bound is the statement's (C(u)C(v)-weighted eighth of the table sum, through |YCbCr->RGB|, plus 2 / 5).",
         level_note="DQT, SOF and sampling factors are read by the independent JPEG walker; trusts the Go runtime.",
         rule=("rapid-generated (image, quality, codec). Non-trivial: image not constant, entropy-coded data longer than 2 bytes per block (AC coefficients present), and >= 2 blocks or a partial block. Distinct = hash of the case."),
         assumptions=COMMON_ASSUME,
-        quick=dict(shards=16, checks=400, extra=[dict(run="TestSizes", shards=4)], timeout=900),
-        thorough=dict(shards=16, checks=8000, extra=[dict(run="TestSizes", shards=16)], timeout=3400),
+        quick=dict(shards=16, checks=400, extra=[dict(run="TestSizes", shards=4), dict(run="TestLarge", shards=8)], timeout=900),
+        thorough=dict(shards=16, checks=8000, extra=[dict(run="TestSizes", shards=16), dict(run="TestLarge", shards=16)], timeout=3400),
     ),
     "C15": dict(
         pkg="c15",
@@ -168,13 +168,13 @@ PROPS = {
     ),
     "C16": dict(
         pkg="c16",
-        technique="property-based testing (rapid) with strict independent marker-segment walkers as validity predicate over every encoder's output",
-        level_text="Exploration: seeded rapid generators over all encoders (Baseline, Extended 8/12, Lossless 0-7, SV1, JPEG-LS lossless/near, JPEG 2000 reversible/irreversible/tiled/layered/all progressions, HTJ2K .201/.202/.203, RLE) with noise-dominant content, dimensions >= 256 and 65535 strips, up to 64 tiles; each stream is walked strictly and its header fields compared with the arguments.",
-        level_note="Trusts harness/ref/walk (JPEG/JPEG-LS/JPEG 2000 walkers) and ref/rleref; they are written from the standards and share no code with /repo.",
+        technique="property-based testing (rapid) with strict independent marker-segment walkers and an independent T.800 Annex B packet reader as validity predicates over every encoder's output",
+        level_text="Exploration: seeded rapid generators over all encoders (Baseline, Extended 8/12, Lossless 0-7, SV1, JPEG-LS lossless/near, JPEG 2000 reversible/irreversible/tiled/layered/all progressions, HTJ2K .201/.202/.203, RLE) with noise-dominant content, dimensions >= 256 and 65535 strips, up to 64 tiles; each stream is walked strictly and its header fields compared with the arguments; every JPEG 2000 / HTJ2K tile is additionally split into packets by an independent T.800 Annex B reader (tag trees, pass counts, Lblock, bit stuffing, terminal 0xFF rule) and must divide exactly; a quota of many-layer noise frames (about 60 packets each) makes packet headers ending in 0xFF occur.",
+        level_note="Trusts harness/ref/walk (JPEG/JPEG-LS/JPEG 2000 walkers, packet reader validated on the 14 third-party OpenJPH streams of /repo/test-data) and ref/rleref; they are written from the standards and share no code with /repo. The packet reader does not model streams with more than one precinct above resolution 0 (the library's precinct layout is not T.800's) and is inconclusive on multi-tile streams that divide under neither canvas nor tile-local anchoring (open findings KF-C19-1/2).",
         rule=("rapid-generated (encoder, image, parameters). Non-trivial: the entropy-coded part contains at least one 0xFF byte (stuffing / marker avoidance exercised) or the codestream has >= 2 tile-parts (RLE: always). Distinct = hash of the case."),
         assumptions=COMMON_ASSUME,
-        quick=dict(shards=16, checks=300, extra=[], timeout=900),
-        thorough=dict(shards=16, checks=6000, extra=[], timeout=3400),
+        quick=dict(shards=16, checks=300, extra=[dict(run="TestPackets", shards=16)], timeout=900),
+        thorough=dict(shards=16, checks=6000, extra=[dict(run="TestPackets", shards=16)], timeout=3400),
     ),
     "C10": dict(
         pkg="c10",
